@@ -303,7 +303,7 @@ func (m *mon) phaseSubstMySQL() {
 		m.r.Violation("non-vacuity:encryptor-config", map[string]interface{}{"error": err.Error()})
 		return
 	}
-	total := m.r.Pick(3500, 150000)
+	total := m.r.Pick(3500, 100000)
 	g := sqlgen.New(m.r.Seed, "c13-subst", sqlgen.MySQL, sqlgen.Options{Schema: schemaTables, Kinds: []string{"insert", "insert", "replace", "update", "update", "select", "select", "select", "union", "delete"}})
 	gt := sqlgen.New(m.r.Seed, "c13-subst-tpl", sqlgen.MySQL, sqlgen.Options{Schema: schemaTables, Placeholders: "none"})
 	const chunk = 20000
@@ -325,7 +325,7 @@ func (m *mon) phaseSubstMySQL() {
 		m.run(jobs, m.substMySQL)
 		done += n
 	}
-	total = m.r.Pick(2000, 100000)
+	total = m.r.Pick(2000, 80000)
 	g2 := sqlgen.New(m.r.Seed, "c13-edit", sqlgen.MySQL, sqlgen.Options{Schema: schemaTables, Placeholders: "mixed"})
 	for done := 0; done < total; {
 		n := min(chunk, total-done)
